@@ -49,6 +49,7 @@ type mvRun struct {
 	handles map[int]int // handles owned by the driver per snapshot
 	iters   map[int]*mvIter
 	nodes   map[int]*skiplist.Node // key -> node of the live item (handle from Put2/GetNode)
+	nl      *nitro.NodeList        // the same nodes chained through their Link fields (only those that came from Put2)
 	nscan   int
 	failed  string
 	stored  int // snapshot number of the last successful backup (0 = none)
@@ -105,6 +106,35 @@ func (r *mvRun) emit(e tr.Ev, observe bool) {
 	r.t.Emit(e)
 }
 
+// The driver keeps the nodes of the live items it knows in a NodeList (the public helper that chains nodes through
+// their Link field, as an application's back index does) and takes a node out of the list before deleting its item.
+func (r *mvRun) listAdd(n *skiplist.Node) {
+	if r.nl == nil {
+		r.nl = nitro.NewNodeList(nil)
+	}
+	r.nl.Add(n)
+}
+
+func (r *mvRun) listRemove(k int) {
+	if n, ok := r.nodes[k]; ok && r.nl != nil {
+		r.nl.Remove(nitro.VerifItemBytes(n.Item()))
+	}
+}
+
+// shutdown closes the instance and reports what the allocator has to say afterwards (user-managed memory only).
+func (r *mvRun) shutdown() {
+	guarded(r.t, func() {
+		r.d.Shutdown()
+		if r.d.Mem != nil && r.failed == "" {
+			m, f, live, errs := r.d.Mem.Counts()
+			if errs == nil {
+				errs = []string{}
+			}
+			r.t.Emit(tr.Ev{"e": "End", "mallocs": m, "frees": f, "live": live, "allocerrs": errs})
+		}
+	})
+}
+
 // exec runs one operation; returns false if the scenario must stop.
 func (r *mvRun) exec(op []interface{}) bool {
 	d := r.d
@@ -118,10 +148,12 @@ func (r *mvRun) exec(op []interface{}) bool {
 		n := d.W[w-1].Put2(d.Item(k, v))
 		if n != nil {
 			r.nodes[k] = n
+			r.listAdd(n)
 		}
 		r.emit(tr.Ev{"e": "Put", "w": w, "k": k, "v": v, "ok": n != nil}, true)
 	case "Delete":
 		w, k := num(op[1]), num(op[2])
+		r.listRemove(k)
 		ok := d.W[w-1].Delete(d.Item(k, 0))
 		if ok {
 			delete(r.nodes, k)
@@ -129,6 +161,7 @@ func (r *mvRun) exec(op []interface{}) bool {
 		r.emit(tr.Ev{"e": "Delete", "w": w, "k": k, "ok": ok}, true)
 	case "Delete2":
 		w, k := num(op[1]), num(op[2])
+		r.listRemove(k)
 		n, ok := d.W[w-1].Delete2(d.Item(k, 0))
 		have, known := r.nodes[k]
 		same := ok && (!known || n == have)
@@ -144,6 +177,7 @@ func (r *mvRun) exec(op []interface{}) bool {
 			r.emit(tr.Ev{"e": "Delete", "w": w, "k": k, "ok": ok}, true)
 			break
 		}
+		r.listRemove(k)
 		ok := d.W[w-1].DeleteNode(n)
 		delete(r.nodes, k)
 		r.emit(tr.Ev{"e": "Delete", "w": w, "k": k, "ok": ok, "api": "DeleteNode"}, true)
@@ -463,6 +497,7 @@ func (r *mvRun) exec(op []interface{}) bool {
 		r.handles = map[int]int{1: 1}
 		r.iters = map[int]*mvIter{}
 		r.nodes = map[int]*skiplist.Node{}
+		r.nl = nil
 		r.stored = 0
 		r.emit(e, true)
 	default:
@@ -526,7 +561,7 @@ func mvRunScenario(t *tr.W, sc *mvScript) string {
 	if err := r.d.DrainGate(); err != nil && r.failed == "" {
 		r.failed = err.Error()
 	}
-	r.d.Shutdown()
+	r.shutdown()
 	return r.failed
 }
 
@@ -755,7 +790,7 @@ func mvRandom(t *tr.W, g *mvGen, length int) string {
 	if err := r.d.DrainGate(); err != nil && r.failed == "" {
 		r.failed = err.Error()
 	}
-	r.d.Shutdown()
+	r.shutdown()
 	return r.failed
 }
 
